@@ -29,6 +29,8 @@ enum E {
     False,
     /// literal as written in Rust and in JSON (identical spelling)
     Lit(&'static str),
+    /// literal whose Rust spelling (type suffix) differs from its JSON spelling
+    LitAs(&'static str, &'static str),
     Str(&'static str),
     /// an expression element: `Value::from(7)` / JSON `7`
     Expr,
@@ -43,6 +45,7 @@ impl E {
             E::True => o.push_str("true"),
             E::False => o.push_str("false"),
             E::Lit(l) => o.push_str(l),
+            E::LitAs(r, _) => o.push_str(r),
             E::Str(s) => write!(o, "{s:?}").unwrap(),
             E::Expr => o.push_str("Value::from(7)"),
             E::Arr(a, trailing) => {
@@ -86,6 +89,7 @@ impl E {
             E::True => o.push_str("true"),
             E::False => o.push_str("false"),
             E::Lit(l) => o.push_str(l),
+            E::LitAs(_, j) => o.push_str(j),
             E::Str(s) => write!(o, "\"{s}\"").unwrap(),
             E::Expr => o.push('7'),
             E::Arr(a, _) => {
@@ -214,6 +218,27 @@ fn programs(tier: Tier) -> (Vec<E>, J) {
     let shape_count = all.len();
     // F-leaf: every literal kind of the macro in every one-hole context
     let rich = [E::Null, E::True, E::False, E::Lit("1"), E::Lit("-2"), E::Lit("-1"), E::Lit("-9"), E::Lit("9"), E::Lit("10"), E::Lit("-10"), E::Lit("255"), E::Lit("256"), E::Lit("-128"), E::Lit("65536"), E::Lit("-2147483648"), E::Lit("1.5"), E::Lit("-0.25"), E::Lit("0.5"), E::Lit("100.25"), E::Lit("0"), E::Lit("2147483647"), E::Str("s"), E::Str(""), E::Str("k\u{e9}"), E::Expr, E::Arr(vec![], false), E::Obj(vec![], false)];
+    // boundary literals: the limits of every integer width the macro accepts (with the type
+    // suffix that makes the literal legal Rust) and of both float widths, one step inside each
+    // limit, and the decimal thresholds of the shortest-digits rendering
+    let boundary = [
+        E::LitAs("127i8", "127"), E::LitAs("-128i8", "-128"), E::LitAs("255u8", "255"),
+        E::LitAs("32767i16", "32767"), E::LitAs("-32768i16", "-32768"), E::LitAs("65535u16", "65535"),
+        E::LitAs("2147483648i64", "2147483648"), E::LitAs("4294967295u32", "4294967295"), E::LitAs("-2147483649i64", "-2147483649"),
+        E::LitAs("9007199254740993i64", "9007199254740993"),
+        E::LitAs("9223372036854775807i64", "9223372036854775807"), E::LitAs("9223372036854775806i64", "9223372036854775806"),
+        E::LitAs("-9223372036854775808i64", "-9223372036854775808"), E::LitAs("-9223372036854775807i64", "-9223372036854775807"),
+        E::LitAs("9223372036854775808u64", "9223372036854775808"), E::LitAs("18446744073709551615u64", "18446744073709551615"), E::LitAs("18446744073709551614u64", "18446744073709551614"),
+        E::Lit("1.7976931348623157e308"), E::Lit("1.7976931348623155e308"), E::Lit("-1.7976931348623157e308"),
+        E::Lit("2.2250738585072014e-308"), E::Lit("5e-324"), E::Lit("1e21"), E::Lit("1e-7"), E::Lit("9.007199254740992e15"), E::Lit("0.1"),
+        E::LitAs("3.4028235e38f32", "3.4028235e38"), E::LitAs("3.4028233e38f32", "3.4028233e38"), E::LitAs("-3.4028235e38f32", "-3.4028235e38"),
+        E::LitAs("1.1754944e-38f32", "1.1754944e-38"), E::LitAs("1e-45f32", "1e-45"), E::LitAs("0.1f32", "0.1"), E::LitAs("16777216f32", "16777216"),
+    ];
+    for x in &boundary {
+        all.push(x.clone());
+        all.push(E::Arr(vec![E::Null, x.clone()], true));
+        all.push(E::Obj(vec![(KeyForm::Lit("a"), x.clone()), (KeyForm::Expr("a"), x.clone())], false));
+    }
     let a = || KeyForm::Lit("a");
     let b = || KeyForm::Lit("b");
     for x in &rich {
@@ -262,7 +287,7 @@ fn programs(tier: Tier) -> (Vec<E>, J) {
     }
     all.dedup();
     let bounds = json!({"pumped_programs": {"programs": pumped, "array_and_object_lengths": [7, 8, 9, 15, 16, 17, 31, 32, 33, 63, 64, 65, 100, 127, 128, 129, 200], "nesting_depths": [5, 8, 16, 32, 64]},"small_shape_family": {"max_nodes_completed": small_n, "leaves": ["null", "1"], "key_forms": ["\"a\"", "KA.clone()"]}, "shape_family": {"max_nodes_completed": shape_n, "programs": shape_count, "next_size_not_covered": skipped, "leaves": ["null", "1", "\"s\""], "key_forms": ["\"a\"", "(\"a\")", "KA.clone()", "\"b\""], "max_depth": 3},
-        "leaf_family": {"literal_kinds": rich.len(), "contexts": 19}});
+        "leaf_family": {"literal_kinds": rich.len(), "contexts": 19}, "boundary_literals": {"literals": boundary.len(), "contexts": 3}});
     (all, bounds)
 }
 
@@ -289,15 +314,15 @@ fn write_workspace(dir: &Path, progs: &[E], ncrates: usize) -> std::io::Result<V
         )?;
         // line 1..HEADER are the header; program i (global index lo + j) is on line HEADER + 1 + j
         let mut src = String::new();
-        src.push_str("#![recursion_limit = \"16384\"]\n#![allow(unused, clippy::all)]\nuse json_syntax::{json, object::Key, Parse, Value};\nfn main() {\n    let KA: Key = Key::from(\"a\"); let KB: Key = Key::from(\"b\");\n    let mut progs: Vec<(usize, Value, &str)> = Vec::new();\n");
+        src.push_str("#![recursion_limit = \"16384\"]\n#![allow(unused, clippy::all)]\nuse json_syntax::{json, object::Key, Parse, Value};\nfn main() {\n    let KA: Key = Key::from(\"a\"); let KB: Key = Key::from(\"b\");\n    std::panic::set_hook(Box::new(|_| {})); let mut progs: Vec<(usize, std::thread::Result<Value>, &str)> = Vec::new();\n");
         for (j, p) in progs[lo..hi].iter().enumerate() {
             let mut r = String::new();
             p.rust(&mut r);
             let mut t = String::new();
             p.json(&mut t);
-            writeln!(src, "    progs.push(({}, json!({}), {:?}));", lo + j, r, t).unwrap();
+            writeln!(src, "    progs.push(({}, std::panic::catch_unwind(|| json!({})), {:?}));", lo + j, r, t).unwrap();
         }
-        src.push_str("    for (i, v, text) in progs {\n        match Value::parse_str(text) {\n            Ok((w, _)) => { if v == w { println!(\"OK {i}\"); } else { println!(\"BAD {i} macro built {} but the text parses to {}\", v, w); } }\n            Err(e) => println!(\"TEXT {i} {e}\"),\n        }\n    }\n}\n");
+        src.push_str("    for (i, v, text) in progs {\n        let v = match v { Ok(v) => v, Err(p) => { let m = p.downcast_ref::<String>().cloned().or_else(|| p.downcast_ref::<&str>().map(|s| s.to_string())).unwrap_or_default(); println!(\"PANIC {i} {}\", m.replace('\\n', \" \")); continue; } };\n        match Value::parse_str(text) {\n            Ok((w, _)) => { if v == w { println!(\"OK {i}\"); } else { println!(\"BAD {i} macro built {} but the text parses to {}\", v, w); } }\n            Err(e) => println!(\"TEXT {i} {e}\"),\n        }\n    }\n}\n");
         std::fs::write(cdir.join("src/main.rs"), src)?;
     }
     std::fs::write(dir.join("Cargo.toml"), format!("[workspace]\nresolver = \"2\"\nmembers = [{}]\n\n[profile.dev]\ndebug = false\nopt-level = 0\nincremental = false\n", members.join(", ")))?;
@@ -420,6 +445,7 @@ fn run_programs(rep: &mut Report, progs: &[E], tier: Tier, name: &str) {
                     });
                 }
                 "BAD" => t.violation("", format!("{r}: {}", it.next().unwrap_or("")), json!({"kind": "program", "rust": r, "json": txt})),
+                "PANIC" => t.violation("", format!("{r} panicked while building the value: {}", it.next().unwrap_or("")), json!({"kind": "program", "rust": r, "json": txt})),
                 _ => t.violation("MACHINERY-gen", format!("generated JSON text {txt:?} does not parse: {}", it.next().unwrap_or("")), json!({"rust": r, "json": txt})),
             }
         }
